@@ -25,6 +25,8 @@ FAMILY = {
     "t3s": dict(L0=3, L1=1, N0=3, N1=0, Ks="{1, 2}", Types='{"", "x"}', Kinds='{"slice", "leaf"}', Types1='{"x"}', Kinds1='{"leaf"}'),
     # four hits, none starting at offset 0 (nested contexts around a decoded hit with a raw hit inside it, ...)
     "n4": dict(L0=3, L1=1, N0=4, N1=0, Ks="{2}", Types='{"x", "y"}', Kinds='{"slice", "leaf"}', Types1='{"x"}', Kinds1='{"leaf"}', MinStart=1),
+    # four plain contexts on a four-byte input, none at offset 0, three types (C1 > C2 > C3 and a hit behind C3)
+    "c4": dict(L0=4, L1=1, N0=4, N1=0, Ks="{1}", Types='{"x", "y", "z"}', Kinds='{"slice"}', Types1='{"x"}', Kinds1='{"leaf"}', MinStart=1),
     # four-byte input (ten spans), two hits
     "t4": dict(L0=4, L1=2, N0=2, N1=1, Ks="<- K_m1_2_4", Types='{"", "x"}',
                Kinds='{"slice", "target", "leaf", "self"}', Types1='{"x"}', Kinds1='{"slice", "leaf"}'),
